@@ -1040,6 +1040,11 @@ func scanBufAlias(c *core.Ctx) []ob {
 				if !storageType(info.TypeOf(l)) {
 					continue
 				}
+				// a field of a local struct *value* (`c0QP := eval.BuffQP[1]; c0QP.Q = opOut.Value[0]`): the assignment changes
+				// the local copy of the header, the receiver's buffer keeps pointing where it did
+				if localStructValueField(info, l) {
+					continue
+				}
 				isBuf := false
 				for _, o := range e.origins(d, l, 0) {
 					if o.recv && bufPath(o.path) != "" {
@@ -1283,4 +1288,30 @@ func reinitPrecedes(pm map[ast.Node]ast.Node, r, u ast.Node) bool {
 		return ri >= 0 && ui >= 0 && ri < ui
 	}
 	return false
+}
+
+// localStructValueField: e is x.f1.f2… with x a local variable (not a parameter's pointee, not the receiver) of struct
+// type, reached through value fields only (no pointer dereference, no index).
+func localStructValueField(info *types.Info, e ast.Expr) bool {
+	cur := unparen(e)
+	for {
+		se, ok := cur.(*ast.SelectorExpr)
+		if !ok {
+			break
+		}
+		if sel := info.Selections[se]; sel == nil || sel.Kind() != types.FieldVal || sel.Indirect() {
+			return false
+		}
+		cur = unparen(se.X)
+	}
+	id, ok := cur.(*ast.Ident)
+	if !ok || cur == unparen(e) {
+		return false
+	}
+	v, ok := info.Uses[id].(*types.Var)
+	if !ok || v.IsField() || v.Pkg() == nil || v.Parent() == v.Pkg().Scope() {
+		return false
+	}
+	_, isStruct := v.Type().Underlying().(*types.Struct)
+	return isStruct
 }
